@@ -10,14 +10,18 @@ Open Scope list_scope.
 Definition cls0 : list (list string) := [["a"; "b"]; ["a"; "b"; "c"]; ["pos"; "w"]; ["x"]].
 Definition pri0 : list (nat * (Z * Z)) := map (fun p => (p, (0, 10)%Z)) (seq 0 8).
 (* HISTORY: the pinned wrapper, no clean-up on exceptions (before 5afd9f1) *)
-Definition cfg_pinned : config := mkConfig cls0 pri0 false true true.
+Definition cfg_pinned : config := mkConfig cls0 pri0 false true true false false false.
 (* HISTORY: wrapper repaired (5afd9f1), prior passing still thaws self, __setitem__ still transfers ids *)
-Definition cfg_repaired : config := mkConfig cls0 pri0 true true true.
+Definition cfg_repaired : config := mkConfig cls0 pri0 true true true false false false.
 (* /repo today: b8214a7 (prior passing works on a copy) and 6df133a (no id transfer to a caller's object) as well *)
-Definition cfg_fixed : config := mkConfig cls0 pri0 true false false.
-(* ... which is the configuration the correspondence runs (breaks if a constant of Model.v is flipped back) *)
-Example current_is_fixed : mkConfig cls0 pri0 wrapper_cleanup derive_thaws setitem_transfers = cfg_fixed.
-Proof. reflexivity. Qed.
+Definition cfg_fixed : config := mkConfig cls0 pri0 true false false false false false.
+(* PROPOSED: delattr guarded, tuple priors frozen with their owner, caches count modifications; see the three proposed_fixes of C13 *)
+Definition cfg_all : config := mkConfig cls0 pri0 true false false true true true.
+(* ... the applied repairs are switched on in the configuration the correspondence runs (breaks if a constant of
+   Model.v is flipped back); the three proposed repairs are cfg_all below, selected by delattr_guarded, tuples_frozen,
+   cache_counts_modifications *)
+Example current_is_fixed : wrapper_cleanup = true /\ derive_thaws = false /\ setitem_transfers = false.
+Proof. repeat split. Qed.
 (* both configurations start from the same empty heap with the eight priors of pri0 *)
 Definition init0 : state := mkState [] [] pri0.
 
@@ -244,7 +248,7 @@ Qed.
 Example freeze_depth_hypotheses :
   let st := fst (run cfg_fixed [leaf_model 0 1; ONew KColl [("m", VRef 0)] 0; ONew (KModel 3) [("x", VRef 1)] 0;
                                   ONew KColl [("q", VRef 2); ("r", VRef 0)] 0] init0) in
-  Inv st /\ snd (freeze FUEL 3 st) = Ok tt /\ PMReach st 3 0.
+  Inv st /\ snd (freeze cfg_fixed FUEL 3 st) = Ok tt /\ PMReach st 3 0.
 Proof.
   split; [|split].
   - apply (guarded_ok cfg_fixed _ (init cfg_fixed) (Inv_init cfg_fixed) eq_refl). apply guardedb_sound. vm_compute. reflexivity.
@@ -289,4 +293,24 @@ Example redirect_last_underscore :
                       OSet 1 "pos_1" (VPrior 2); OSet 1 "pos_0_1" (VPrior 3); OQuery 1 QPaths] init0)
   = [Ok AUnit; Ok AUnit; Ok AUnit; Ok AUnit;
      Ok (AItems [(["pos"; "pos_0"], LPrior 0); (["w"], LPrior 1); (["pos"; "pos_1"], LPrior 2); (["pos_0_1"], LPrior 3)])].
+Proof. vm_compute. reflexivity. Qed.
+
+(* ------------------------------------------------------------------ the proposed repairs (switched off in Model.v) *)
+Example all_repaired_cfg : all_repaired cfg_all.
+Proof. repeat split. Qed.
+
+(* the three remaining witnesses under the proposed repairs: the modification is rejected or the cache dropped *)
+Example repaired_stale : snd (run cfg_all (h_stale ++ [OQuery 1 QCount]) init0)
+  = [Ok AUnit; Ok AUnit; Ok AUnit; Ok AUnit; Ok AUnit; Ok (ANat 2); Ok AUnit; Ok AUnit; Ok (ANat 3)].
+Proof. vm_compute. reflexivity. Qed.
+Example repaired_tuple : snd (run cfg_all (h_tuple ++ [OQuery 1 QCount]) init0)
+  = [Ok AUnit; Ok AUnit; Ok AUnit; Ok (ANat 2); Exn EAssertion; Exn EAssertion; Ok (ANat 2)].
+Proof. vm_compute. reflexivity. Qed.
+Example repaired_del : snd (run cfg_all (h_del ++ [OQuery 0 QCount]) init0)
+  = [Ok AUnit; Ok AUnit; Ok (ANat 2); Exn EAssertion; Ok (ANat 2)].
+Proof. vm_compute. reflexivity. Qed.
+Example repaired_tuple_thaws_with_owner :
+  snd (run cfg_all (h_tuple ++ [OUnfreeze 1; OSet 0 "pos_1" (VPrior 2); OQuery 1 QCount; OFreeze 1; ODel 0 "pos_0"; OQuery 1 QCount]) init0)
+  = [Ok AUnit; Ok AUnit; Ok AUnit; Ok (ANat 2); Exn EAssertion; Exn EAssertion; Ok AUnit; Ok AUnit; Ok (ANat 3); Ok AUnit;
+     Exn EAssertion; Ok (ANat 3)].
 Proof. vm_compute. reflexivity. Qed.
